@@ -312,7 +312,8 @@ def exec_part(rn, base, tier, ev, fnd):
 TARGETS = {
     'st-plain': ['include <abstractions/base>', 'include <abstractions/nameservice-strict>', '', 'capability net_admin,', '', 'network unix,', 'network inet dgram,', '', '@{exec_path} mr,', '',
                  '/etc/st-plain r,', '/var/lib/matrix, r,', 'owner @{HOME}/.st rw,'],
-    'st-exec': ['include <abstractions/base>', '', '@{exec_path} mr,', '', '@{bin}/sh rix,', '@{bin}/foo rPx,', '@{bin}/bar rPUx -> bar,', '@{lib}/x ux,', '', '/etc/st-exec r,', '/usr/share/unix, r,',
+    'st-exec': ['include <abstractions/base>', '', '@{exec_path} mr,', '', '@{bin}/sh rix,', '@{bin}/foo rPx,', '@{bin}/bar rPUx -> bar,', '@{lib}/x ux,', '@{bin}/baz rPx -> st-exec//&helper,', '@{bin}/gpg rCx -> st-exec//gpg,', '@{bin}/v Pix -> @{p_systemd},',
+                '@{bin}/ns px -> :ns:other,', '', '/etc/st-exec r,', '/usr/share/unix, r,',
                 'unix (send receive) type=stream peer=(label=unix),'],
     'st-sub': ['include <abstractions/base>', '', '@{exec_path} mr,', '@{bin}/less rCx -> pager,', '', '/etc/st-sub r,', '', 'profile pager {', '  include <abstractions/base>', '', '  @{bin}/less mr,', '',
                '  include if exists <local/st-sub_pager>', '}'],
